@@ -11,6 +11,7 @@ import logging
 from dataclasses import dataclass
 from typing import TYPE_CHECKING
 
+from happysimulator.components.queue import QueueNotifyEvent
 from happysimulator.components.queue_policy import FIFOQueue, QueuePolicy
 from happysimulator.components.queued_resource import QueuedResource
 from happysimulator.core.event import Event
@@ -136,9 +137,11 @@ class ShiftedServer(QueuedResource):
         if event.event_type == _SHIFT_CHANGE:
             return self._handle_shift_change()
 
-        # On first real event, schedule the first shift change
+        # On first real event, adopt the shift in force now (the capacity was
+        # initialised for t=0) and schedule the first shift change
         if not self._initialized:
             self._initialized = True
+            self._current_capacity = self.schedule.capacity_at(self.now.to_seconds())
             next_event = self._schedule_next_shift()
             result = super().handle_event(event)
             if next_event and isinstance(result, list):
@@ -161,9 +164,19 @@ class ShiftedServer(QueuedResource):
             new_capacity,
         )
 
+        events: list[Event] = []
+        if new_capacity > old_capacity:
+            # Waiting items only move when the driver polls; nothing else tells
+            # it that capacity has appeared, so wake it up.
+            events.append(
+                QueueNotifyEvent(time=self.now, target=self.driver, queue_entity=self.queue)
+            )
+
         # Schedule the next shift change (self-perpetuating)
         next_event = self._schedule_next_shift()
-        return [next_event] if next_event else []
+        if next_event:
+            events.append(next_event)
+        return events
 
     def _schedule_next_shift(self) -> Event | None:
         """Schedule only the next transition event."""
